@@ -3,4 +3,5 @@ open Model
 let lookup (p : string) : sx -> sx =
   match p with
   | "C13" -> run_C13
+  | "C08" -> run_C08
   | _ -> failwith ("no model entry point for " ^ p)
